@@ -47,6 +47,8 @@ def oracle_c20(r, an, info, rng):
             rel("cf=|Hxy|", r.cf, np.abs(r.Hxy), rtol=1e-13)
             m = r.cf > 0
             rel("cf_db=20log10(cf)", r.cf_db[m], 20 * np.log10(r.cf[m]), rtol=1e-12, atol=1e-12)
+            if np.any(~m) and not np.all(np.isneginf(np.asarray(r.cf_db)[~m])):
+                out.append(("cf_db=20log10(cf)", "cf_db is %r where cf = 0 (20*log10(0) = -inf)" % float(np.asarray(r.cf_db)[~m][0])))
             rel("cf_deg=cf_rad*180/pi", r.cf_deg, r.cf_rad * 180 / np.pi, rtol=1e-12, atol=1e-12)
             rel("cf_deg_unwrapped=cf_rad_unwrapped*180/pi", r.cf_deg_unwrapped, r.cf_rad_unwrapped * 180 / np.pi, rtol=1e-12, atol=1e-12)
             rel("Hxy_deg_error=rad*180/pi", r.Hxy_deg_error, r.Hxy_rad_error * 180 / np.pi, rtol=1e-12)
@@ -89,7 +91,9 @@ def oracle_c20(r, an, info, rng):
                 if isinstance(v, np.ndarray) and v.shape[:1] == (n,) and nm != "f":
                     exp_cols.add(nm)
             # per-bin arrays that MUST be there
-            must = {"XX", "S2", "Gxx", "ENBW", "L", "K", "navg"} | ({"Gxy", "coh", "Hxy"} if r.iscsd else {"psd", "asd"})
+            must = {"XX", "S2", "Gxx", "ENBW", "L", "K", "navg", "D"} | ({"Gxy", "coh", "Hxy"} if r.iscsd else {"psd", "asd"})
+            # every stored per-bin array (first dimension = number of bins), whatever its dtype or inner shape
+            must |= {k for k, v in r._data.items() if isinstance(v, np.ndarray) and v.ndim >= 1 and v.shape[0] == n and k != "f"}
             if not must <= set(df.columns):
                 out.append(("df:missing", "to_dataframe lacks columns %s" % sorted(must - set(df.columns))))
             inappl = set(AUTO_ONLY if r.iscsd else CROSS_ONLY)
@@ -100,6 +104,8 @@ def oracle_c20(r, an, info, rng):
             for c in ("Gxx", "XX", "L"):
                 if c in df.columns and not np.array_equal(np.asarray(df[c]), np.asarray(getattr(r, c))):
                     out.append(("df:values", "to_dataframe column %s differs from the attribute" % c))
+            if "D" in df.columns and any(not np.array_equal(np.asarray(a), np.asarray(b)) for a, b in zip(df["D"], r.D)):
+                out.append(("df:values", "to_dataframe column D differs from the per-bin segment starts"))
         except Exception as e:
             out.append(("df:exc", "to_dataframe raised %s: %s" % (type(e).__name__, str(e)[:100])))
         # None table again after everything has been accessed (access-order independence)
